@@ -5,6 +5,7 @@ CONSTANTS
   MaxWrites = 1
   Keys = {"k1", "k2"}
   CancelBudget = 1000
+  ExportCuts = TRUE
 INVARIANTS
   TypeOK
   MutualExclusion
